@@ -25,6 +25,9 @@ def main():
     if len(sys.argv) > 1 and sys.argv[1] == "selftest":
         from symx import selftest
         sys.exit(selftest.main(sys.argv[2:]))
+    if len(sys.argv) > 1 and sys.argv[1] == "enginetest":
+        from symx import enginetest
+        sys.exit(enginetest.main(sys.argv[2:]))
     a = ap.parse_args()
     seed = int(os.environ.get("VERIF_SEED", "0") or 0)
     if a.cmd == "check":
